@@ -46,7 +46,7 @@ CHECKS = {
          "Needs hook H3; 'terminates' decided as bounded progress (<= 4n^2+100 loop steps, output never longer than input).", "§4 C13"),
  "C14": ("runtime monitor: harness reference clipping (exact crossing tests + midpoint membership) as oracle",
          "Simple lines / multi-lines against valid polygons with holes, multi-polygons and boxes in general position: total clipped length must equal the reference inside length (1e-9), every returned vertex must lie on the line and inside or on the polygon (1e-9 d), the result is empty exactly when the reference length is 0; configurations inside/outside/bbox-disjoint/hole-crossing/multiple entries are counted.",
-         "General position and line simplicity enforced by exact predicates in the harness. The extra phase through_vertex (integer grid, a line segment exactly through a polygon vertex) exhibits a defect of the external clipper; it is listed in known_findings.json, prints KNOWN-FINDING and does not fail the run.", "§4 C14"),
+         "General position and line simplicity enforced by exact predicates in the harness. The extra phases through_vertex (integer grid, a line segment exactly through a polygon vertex) and tiny_magnitude (coordinates 1e-13..1e-10) exhibit defects of the external clipper; they are listed in known_findings.json, print KNOWN-FINDING and do not fail the run.", "§4 C14"),
  "C15": ("runtime monitor: truth-by-construction oracle (perturbation / permutation / rotation positives; typed, structural and displacement negatives) + symmetry check",
          "For base geometries of all eight types, derived partners with a known truth value are compared in both directions: true for <0.9 tol perturbations combined with documented reorderings and ring rotations; false for other types, inserted/deleted members (incl. empty ones) or vertices, reversed line strings, single-vertex displacements > tol; g.Similar(h) must equal h.Similar(g) always.",
          "Members separated by >> tol, closed rings with a unique anchor vertex (domain restrictions stated by the property).", "§4 C15"),
